@@ -372,9 +372,42 @@ package tsm1
 //@ func TimeArrayEncodeAll
 //@   props C13
 //@   nosafety
-//@   exact_divmod
+//@   exact_divmod 1 10 100 1000 10000 100000 1000000 10000000 100000000 1000000000 10000000000 100000000000 1000000000000
 //@   loop 3 invariant rle_divisor: pow10(div)
 //@   call binary.PutUvarint#1 requires rle_scaling_is_exact: divides(div, deltas[1])
 //@   loop 5 invariant divisor_divides_all_seen: pow10(div) && 1 <= i && all(k, 1, i, divides(div, deltas[k]))
 //@   loop 6 invariant divisor_divides_all_seen: pow10(div) && all(k, 1, i, divides(div, deltas[k]))
 //@   loop 7 invariant scaling_is_exact: pow10(div) && 1 <= i && all(k, i, len(deltas), divides(div, deltas[k]))
+
+// The streaming encoder's reduce(): the returned divisor divides every delta, and max bounds them.
+//@ func (*encoder).reduce
+//@   props C13
+//@   nosafety
+//@   exact_divmod 1 10 100 1000 10000 100000 1000000 10000000 100000000 1000000000 10000000000 100000000000 1000000000000
+//@   loop 1 invariant pow: pow10(divisor) && -1 <= i
+//@   loop 1 invariant divisor_divides_all_seen: all(k, i+1, len(deltas), divides(divisor, deltas[k]))
+//@   loop 1 invariant max_bounds_all_seen: all(k, i+1, len(deltas), deltas[k] <= max)
+//@   loop 2 invariant pow: pow10(divisor)
+//@   loop 2 invariant divisor_divides_all_seen: all(k, i+1, len(deltas), divides(divisor, deltas[k]))
+//@   ensures divisor_divides_every_delta: pow10(result1) && all(k, 1, len(result3), divides(result1, result3[k]))
+//@   ensures max_bounds_every_delta: all(k, 1, len(result3), result3[k] <= result0)
+//@   ensures deltas_in_place: len(result3) == len(e.ts) && arr(result3) == arr(e.ts) && off(result3) == off(e.ts)
+//@   modifies e.ts[:]
+
+// Scaling by div is exact only for a div that divides: the two encoders state it, Bytes discharges it from reduce.
+//@ func (*encoder).encodePacked
+//@   props C13
+//@   assumed
+//@   requires scaling_is_exact: pow10(div) && all(k, 1, len(dts), divides(div, dts[k]))
+
+//@ func (*encoder).encodeRLE
+//@   props C13
+//@   assumed
+//@   requires rle_scaling_is_exact: pow10(div) && divides(div, delta)
+
+//@ func (*encoder).encodeRaw
+//@   assumed
+
+//@ func (*encoder).Bytes
+//@   props C13
+//@   nosafety
